@@ -32,6 +32,14 @@ func init() {
 					}
 				}
 			}
+			if tier != "thorough" {
+				// a few long digit strings in the quick tier too (64-bit overflow region)
+				for _, p := range [][2]int{{1, 16}, {1, 17}, {1, 18}, {2, 20}, {19, 0}, {20, 1}, {3, 19}} {
+					cases = append(cases, Case{ID: fmt.Sprintf("percent-literal i=%d f=%d", p[0], p[1]), Pkg: "internal/parser", Fn: "ZZC13Percent", Args: []string{fmt.Sprint(p[0]), fmt.Sprint(p[1])}, Tag: "percent-literal"})
+				}
+				cases = append(cases, Case{ID: "ratio-literal n=20 d=21 layout=00", Pkg: "internal/parser", Fn: "ZZC13Ratio", Args: []string{"20", "21", "00"}, Tag: "ratio-literal"})
+				cases = append(cases, Case{ID: "percent-variable i=1 f=18", Pkg: "internal/interpreter", Fn: "ZZC13PortionVarPercent", Args: []string{"1", "18"}, Tag: "percent-variable"})
+			}
 			maxN := 3
 			if tier == "thorough" {
 				maxN = 21
